@@ -295,6 +295,10 @@ namespace ip {
 			if (p.buffer.empty()) break;
 		}
 
+		// whatever did not fit the caller's buffers is discarded with the
+		// datagram, release its share of the receive buffer too
+		m_queue_size -= int(p.buffer.size());
+
 		m_incoming_queue.erase(m_incoming_queue.begin());
 		return read;
 	}
